@@ -884,6 +884,23 @@ pub fn observe(node: &Arc<Node>) -> Snap {
     Snap { channels, node: node_v, tracker }
 }
 
+/// Components of the signer's state that differ between two observations.
+pub fn snap_diffs(before: &Snap, after: &Snap) -> Vec<String> {
+    let mut diffs: Vec<String> = vec![];
+    for (k, v) in before.channels.iter() {
+        match after.channels.get(k) {
+            Some(v2) => diff_values("channel", v, v2, &mut diffs),
+            None => diffs.push("channel(removed)".into()),
+        }
+    }
+    if after.channels.len() > before.channels.len() {
+        diffs.push("channel(added)".into());
+    }
+    diff_values("node", &before.node, &after.node, &mut diffs);
+    diff_values("tracker", &before.tracker, &after.tracker, &mut diffs);
+    diffs
+}
+
 /// Names of the components that differ (first few paths), for signatures and messages.
 pub fn diff_values(path: &str, a: &Value, b: &Value, out: &mut Vec<String>) {
     if out.len() > 6 || a == b {
